@@ -122,7 +122,7 @@ class Build:
         with self._lock():
             ds = [d for d in glob.glob(os.path.join(BUILDROOT, "*")) if os.path.isdir(d)]
             ds.sort(key=os.path.getmtime, reverse=True)
-            for d in ds[3:]:
+            for d in ds[6:]:
                 shutil.rmtree(d, ignore_errors=True)
 
     class _L:
